@@ -122,27 +122,27 @@ SPEC = dict(
         "HMAC-SHA1); it is a named hypothesis of tamper_rejected_by_authenticated_decode, not an axiom, and "
         "tamper_verified_is_forgery states the same fact without it (as an explicit forgery). Nothing is assumed about CRC-32",
         "round trip is claimed for messages inside WFMsg; per conjunct (see the doc comment of WFMsg): ranges of the C++ types and the "
-        "8-byte token cannot be violated by the API; the size bound can (finding C14:oversized-not-decodable); the 12-byte id is a "
+        "8-byte token cannot be violated by the API; the size bound can, encode then refuses and the round trip is proved for every message encode accepts; the 12-byte id is a "
         "Q_ASSERT precondition of setId; the rest restricts public data members to values the attribute can have at all (address = "
         "host and port, error code = class*100+number in two bytes, one 64-bit ICE tie-breaker) - values outside are covered by the "
         "correspondence only",
         "memory safety of decode on arbitrary bytes is sanitizer exploration (ASan+UBSan on library and harness), not a theorem (partial)",
     ],
-    level_text="Theorems for every well-formed message over all 23 attributes, every key length and fingerprint on/off: decode(encode m) = "
-               "view m (strings through QString::fromUtf8, identity for NUL/BOM-free UTF-8); MI = the code's HMAC of the protected bytes, "
-               "proved equal to RFC 2104 HMAC for keys of every length; FP = bitwise CRC-32 ^ 0x5354554e with the table regenerated from "
-               "the source and proved equal to the bitwise definition; for every packet: accepted with MI under a key => HMAC verified, "
-               "accepted at FP => CRC verified, accepted => every attribute header and value inside the packet. Single-bit corruption, "
-               "by case analysis over every bit position of an encoded message: a flip in the header, the attributes or the "
-               "MESSAGE-INTEGRITY attribute that is accepted with integrity verified is an explicit HMAC forgery (no hypothesis), hence "
-               "rejected by the authenticated decode (decode + MESSAGE-INTEGRITY present, what ICE enforces since f41aa68) under the one "
-               "named hypothesis NotAForgery; a flip behind MESSAGE-INTEGRITY yields a rejection or the same message (no hypothesis); "
-               "nothing is assumed about CRC-32. Plain decode() itself does not require MESSAGE-INTEGRITY under a key, so a flipped "
-               "length bit that makes an attribute swallow exactly MI(+FP) is accepted by it (defect theorem, recorded: the fix changes "
-               "decode's contract). Further recorded defects with theorems/replays: NUL/BOM in strings do not round-trip; attributes "
-               "beyond 65535 bytes are encoded with wrapped lengths and do not decode; setReservationToken pads with uninitialised "
-               "memory. Repaired in /repo (witnesses replayed first on every run): HMAC for keys > 64 bytes, other key accepted, "
-               "attribute length beyond the buffer (a1928fd, df53ac0).",
+    level_text="Theorems for every message encode accepts (it refuses exactly those exceeding the 16-bit length field) over all 23 "
+               "attributes, every key length and fingerprint on/off: decode(encode m) = view m (strings through QString::fromUtf8, "
+               "identity for NUL/BOM-free UTF-8); MI = the code's HMAC of the protected bytes, proved equal to RFC 2104 HMAC for keys of "
+               "every length; FP = bitwise CRC-32 ^ 0x5354554e with the table regenerated from the source and proved equal to the "
+               "bitwise definition; for every packet: accepted with MI under a key => HMAC verified, accepted at FP => CRC verified, "
+               "accepted => every attribute header and value inside the packet. Single-bit corruption, by case analysis over every bit "
+               "position of an encoded message: a flip in the header, the attributes or the MESSAGE-INTEGRITY attribute that is accepted "
+               "with integrity verified is an explicit HMAC forgery (no hypothesis), hence rejected by the authenticated decode (decode + "
+               "MESSAGE-INTEGRITY present, the gate ICE applies since f41aa68) under the one named hypothesis NotAForgery; a flip behind "
+               "MESSAGE-INTEGRITY yields a rejection or the same message (no hypothesis); nothing is assumed about CRC-32. Recorded "
+               "defects with theorems and replays: plain decode() does not require MESSAGE-INTEGRITY under a key, so a flipped length bit "
+               "that makes an attribute swallow exactly MI(+FP) is accepted by it (requiring it inside decode would reject TURN Data "
+               "indications); U+0000 in a string is cut (one-line fix offered), a leading U+FEFF is dropped by Qt. Repaired in /repo, "
+               "witnesses replayed first on every run: HMAC for keys > 64 bytes, other key accepted, attribute length beyond the buffer, "
+               "oversized message encoded with wrapped lengths, reservation token padded with uninitialised memory.",
     level_note="Proved about the hand-written model over translator-generated table/constants; model-to-code tie is differential "
                "(systematic + seeded random, not exhaustive). 'Never crashes / reads out of bounds on arbitrary bytes' is a runtime "
                "statement: decode is total in Lean, the C++ is run on 1.2e4 (quick) / 1e5 (thorough) arbitrary packets plus ~7e5 / 6e6 "
